@@ -438,10 +438,17 @@ func TestC10(t *testing.T) {
 				c = cb
 			}
 		}
-		if kind == "" && len(all) > 0 && gen.Uniform(0, 1).Draw(t, "second-order") == 0 {
+		hasUpper := false
+		for _, nn := range mapping {
+			if strings.ToLower(nn) != nn {
+				hasUpper = true
+			}
+		}
+		if kind == "" && len(all) > 0 && (gen.Uniform(0, 1).Draw(t, "second-order") == 0 || (hasUpper && batchOK)) {
 			// second order: one more identifier takes the exact spelling under which an (already renamed) identifier lives
-			// in the emitted script (read off that script), for either target
-			useBatch := batchOK && gen.Uniform(0, 1).Draw(t, "second-order-batch") == 1
+			// in the emitted script (read off that script), for either target; with an upper-case name in play mostly the
+			// Batch script is read (cmd.exe folds case, so its emitter has to encode the case)
+			useBatch := batchOK && gen.Uniform(0, 3).Draw(t, "second-order-batch") != 0
 			tg := run.Bash
 			if useBatch {
 				tg = run.Batch
@@ -459,6 +466,19 @@ func TestC10(t *testing.T) {
 					if !used[sp] {
 						pool2 = append(pool2, sp)
 					}
+				}
+				// spellings that belong to the identifiers renamed in the first step are preferred
+				pref := []string{}
+				for _, sp := range pool2 {
+					for _, nn := range mapping {
+						if strings.HasPrefix(strings.ToLower(sp), strings.ToLower(nn)) {
+							pref = append(pref, sp)
+							break
+						}
+					}
+				}
+				if len(pref) > 0 && gen.Uniform(0, 3).Draw(t, "second-preferred") != 0 {
+					pool2 = pref
 				}
 				if len(pool2) > 0 {
 					id := all[gen.Uniform(0, len(all)-1).Draw(t, "second-ident")]
